@@ -14,6 +14,7 @@ Line protocol for the WAMP message model (C03, C08).  Values travel as ONE token
   wamp.fields <Class>          → field names, comma separated
   wamp.code <Class>            → type code
   wamp.typemap                 → the regenerated MESSAGE_TYPE_MAP as code:Class,…
+  wamp.binary                  → the regenerated BINARY flags as name:0|1,…
   batch.json <hex,hex,…>       → hex            unbatch.json <hex> → ok <hex,hex,…> | err <kind>
   batch.bin  <hex,hex,…>       → hex            unbatch.bin  <hex> → ok <hex,hex,…> | err <kind>
   (`-` = empty octet string, `.` = empty list)
@@ -78,6 +79,8 @@ def handle : List String → Option String
   | ["wamp.fields", c] => do
       let σ ← findSchema c
       pure (",".intercalate (σ.fieldNames.map str))
+  | ["wamp.binary"] =>
+      pure (",".intercalate (Generated.WampCodes.serializerBinary.map (fun e => s!"{str e.1}:{boolStr e.2}")))
   | ["wamp.typemap"] =>
       pure (",".intercalate (Generated.WampCodes.typeMap.map (fun e => s!"{e.1}:{str e.2}")))
   | ["wamp.code", c] => do
